@@ -117,11 +117,24 @@ def arrow(F, rep):
     rep.ob("ARROW", "arguments", ok_c and ok_a,
            "Call: args = [resolve(a) for a in .1]; ArrowCall: args = [resolve(.0)] ++ [resolve(a) for a in .2] (%s | %s)" % (
                (c[0].get("args_init"), c[0].get("loops")), (a[0].get("args_init"), a[0].get("loops"))), line_of(a[1]))
-    # extra_arg is the arrow's left operand
+    # the prepended argument is the resolved left operand: the args vector of the ArrowCall arm starts as vec![X] where X is
+    # self.expression(<field 0 of the ArrowCall pattern>)
     ea = None
-    for hid, o in fl.origin.items():
-        if fl.names.get(hid) == "extra_arg" and o["kind"] == "let":
-            ea = pp(o["src"])
+    if a is not None and a[0].get("n_struct"):
+        arm_a = a[1]
+        st = [x for x in nodes(arm_a["body"], "Struct") if x["path"].endswith("Expression::Call")][0]
+        f_ = {x["name"]: x["e"] for x in st["fields"]}
+        o = fl.origin.get(peel(f_["args"]).get("hid"))
+        init = o["src"] if o and o.get("src") is not None else None
+        first = None
+        if init is not None:
+            els = [x for x in nodes(init, "Path") if x.get("res") == "Local"]
+            first = els[0] if els else None
+        if first is not None:
+            src = fl.trace(first)
+            calls = [c for c in nodes(src, "MethodCall") if callee(c) == R + "expression"] if isinstance(src, dict) else []
+            if calls:
+                ea = "self.expression(%s)" % tc.root_field(fl, calls[0]["args"][0])
     # parser side: what follows `->` is parsed at the call level, so a binary operator after the call belongs to the
     # surrounding expression: `a -> f(b) + c` is `f(a, b) + c`
     ac = F.fn("sylt_parser::expression::arrow_call")
@@ -137,7 +150,7 @@ def arrow(F, rep):
            "the right-hand side of `->` is parsed at the call level (parse_precedence(.., Prec::%s)%s)" % (
                lv, "; it is parsed with expression(), i.e. at the loosest level: it swallows every operator that follows, and "
                "`a -> f(b) + c` is rejected with `Expected a call-expression after '->'`" if whole else ""), ac["sp"])
-    rep.ob("ARROW", "prepended-is-lhs", ea is not None and ea.startswith("self.expression(extra_arg)"), "the prepended argument is the resolved left operand (%s)" % ea, line_of(a[1]))
+    rep.ob("ARROW", "prepended-is-lhs", ea == "self.expression(0)", "the prepended argument is the resolved left operand (%s)" % ea, line_of(a[1]))
 
 
 def implicit_ret(F, rep):
